@@ -1,11 +1,13 @@
-"""C18 — linear work. Proof: Properties/C18.v (cost calculus, stylists; full bound stated). Tie: K7 — the
-implementation's conversion counter (hook) must EQUAL the model's on every case, which makes a 'convert, fall
-back and convert again' edit visible on the first nested input. Search oracle: conversions per syntax node over
-nested families at doubling depths."""
+"""C18 — linear work. Proof: Properties/C18.v (C18_conversions_linear: counter <= 3 * tree_size for every
+schema-conforming tree, every request, configuration and nesting; CostBound.v). Tie: K7 — the implementation's
+conversion counter (hook) must EQUAL the model's on every case, which makes a 'convert, fall back and convert
+again' edit visible on the first nested input; the theorem's hypothesis `wfc` (extracted) is evaluated on every
+tree the parser hands over and the model's tree_size must equal the implementation's node count. Search oracle:
+conversions per syntax node over nested families at doubling depths."""
 from . import core
 
 PROP_FILE = "Properties/C18.v"
-THEOREMS = ["C18_costs_bind", "C18_costs_fold", "C18_flow_once_per_child", "C18_list_once_per_child", "C18_plain_once_per_child"]
+THEOREMS = ["C18_conversions_linear", "C18_root", "C18_costs_bind", "C18_costs_fold", "C18_flow_once_per_child", "C18_list_once_per_child", "C18_plain_once_per_child"]
 BOUND = 3   # conversions per syntax node (a node can be entered as pattern, as expression and as math body)
 
 
@@ -14,6 +16,14 @@ def post(ck, recs):
     bad = [r for r in compared if r["k"].get("cnt_eq") is False]
     ck.oblige("K7: conversion counter of the implementation == counter of the model on %d cases" % len(compared), not bad,
               ("first: impl %s model %s on %r" % (bad[0]["k"].get("impl_cnt"), bad[0]["k"].get("model_cnt"), core.case_of(bad[0])))[:600] if bad else "")
+    wf = [r for r in recs if r.get("k") and r["k"].get("model_wfc") is not None]
+    notwf = [r for r in wf if not r["k"]["model_wfc"]]
+    ck.oblige("hypothesis of C18_conversions_linear: the extracted schema clause `wfc` holds on all %d parsed trees" % len(wf), not notwf,
+              ("first: %r" % (core.case_of(notwf[0]),))[:600] if notwf else "")
+    szbad = [r for r in wf if r["o"].get("class") == "ok" and r["o"].get("nodes") is not None
+             and int(r["o"]["nodes"]) != r["k"].get("model_size")]
+    ck.oblige("tree_size of the model's tree == the implementation's syntax-node count on %d trees" % len(wf), not szbad,
+              ("first: impl %s model %s on %r" % (szbad[0]["o"].get("nodes"), szbad[0]["k"].get("model_size"), core.case_of(szbad[0])))[:600] if szbad else "")
     worst = 0.0
     over = []
     fam = {}
@@ -54,6 +64,6 @@ def run(tier, seed, replay=None):
         "C18", tier, seed, replay, "c05", PROP_FILE, THEOREMS,
         "formatting did not complete normally",
         ["rendering cost (the `pretty` crate) is outside the statement, as in the property",
-         "the bound 3 * nodes over all converters is stated (C18_full) and not yet proved; the per-stylist 'once per child' theorems are; "
-         "K7 (exact counter equality) ties the implementation's counter to the model's on every case"],
+         "the bound 3 * nodes is proved for the model (C18_conversions_linear) under the schema clause wfc, which is "
+         "checked on every parsed tree; K7 (exact counter equality) ties the implementation's counter to the model's on every case"],
         post=post)
